@@ -144,7 +144,41 @@ RoundTripFails(e) ==
   ELSE Chk("C09:GenBankRoundTrip", e.exc = "" /\ e.after.seq = e.before.seq /\ e.after.topo = "circular"
                                    /\ e.after.feats = e.before.feats)
 
+\* ---- C11: the product of one level is a valid module of the next level ---------------------
+NoRaise(r) == \A i \in 1..Len(r.qexc) : r.qexc[i] = ""
+\* "the whole insert" of a module: its retained fragment; when the fragment itself carries the pair of
+\* next-level sites (YTK products embed the BsaI sites of the entry they become), the stretch between the
+\* next-level cuts of the fragment (read together with its trailing overhang) - the rest is, by the next
+\* level's own definition, flank and not target.
+InsertOf(d, nenz) ==
+  LET w == d.tgt \o d.down
+      F == LinFwd(w, nenz)   R == LinRev(w, nenz)
+  IN IF Cardinality(F) = 1 /\ Cardinality(R) = 1
+     THEN LET p == CHOOSE p \in F : TRUE   q == CHOOSE q \in R : TRUE
+              a == p + Len(nenz.site) + nenz.off   b == q - nenz.off - nenz.ovh
+          IN IF a <= b THEN LinSlice(w, a, b) ELSE d.tgt
+     ELSE d.tgt
+NextLevelFails(e) ==
+  LET dm == Dm(e)  dv == Dv(e)  P == e.out.seq IN
+  IF e.out.kind # "product" \/ ~dv.ok \/ (\E i \in 1..Len(dm) : ~dm[i].ok \/ Len(dm[i].tgt) < e.enz.ovh + 2)
+  THEN {"S:C11Precondition"}
+  ELSE LET g == Graph(dm, dv) IN
+  IF ~ProductExpected(g) \/ g.unused # {} \/ ~TwoSites(P, e.nenz) THEN {"S:C11Precondition"}
+  ELSE IF LET d0 == DecompModule(P, e.nenz) IN d0.ok /\ Len(d0.tgt) < e.nenz.ovh + MinBody
+       THEN {"S:C11Precondition"}       \* the next-level body would be shorter than the generic structure's minimum
+  ELSE LET nd == DecompModule(P, e.nenz)
+           inserts == Concat([j \in 1..Len(g.chain) |-> InsertOf(dm[g.chain[j]], e.nenz)])
+           r == e.next.res
+       IN Chk("C11:ProductIsNextModule",
+              /\ r.exc = "" /\ r.valid /\ NoRaise(r) /\ nd.ok
+              /\ r.up = nd.up /\ r.down = nd.down /\ r.tgt = nd.tgt)
+          \cup Chk("C11:TargetContainsInserts", r.valid /\ NoRaise(r) /\ OccursLin(inserts, r.tgt))
+          \cup (IF e.second.has /\ ~Eq(r.up, RC(r.up))        \* (palindromic start overhang: permissive reading, DESIGN 5)
+                THEN Chk("C11:AssemblesAtNextLevel", e.second.out.kind = "product" /\ OccursCirc(r.tgt, e.second.out.seq))
+                ELSE {})
+
 Fails(e) == CASE e.ev = "Assemble" -> AssembleFails(e)
+              [] e.ev = "NextLevel" -> NextLevelFails(e)
               [] e.ev = "RoundTrip" -> RoundTripFails(e)
               [] OTHER -> {"X:UnknownEvent"}
 Init == l = 1
